@@ -25,7 +25,8 @@ CONSTANTS Vals,        \* section values a sample may take (integers, must conta
           Dirs,        \* subset of {-1, 0, 1};  0 stands for direction = None
           Refines,     \* segment_refine values explored (0 = vectorised path)
           MaxHitsSet,  \* max_hits_per_traj values explored; 0 stands for None
-          TailRule         \* "asis": the last sample is never examined as on-surface sample
+          CheckEvery,  \* invariants are evaluated on patterns whose length is a multiple of this
+          TailRule     \* "asis": the last sample is never examined as on-surface sample
                        \* "scan_last": it is (proposed repair C15-fix1)
 
 VARIABLE g             \* the sample pattern built so far
@@ -91,11 +92,14 @@ MayPos(gs, d) == {<<i, FZero>> : i \in {j \in 1 .. Len(gs) : MaySample(gs, j, d)
 
 \* hits: sequence of positions.  mh = 0 means no limit.
 StrictlyOrdered(hits) == \A j \in 1 .. Len(hits) - 1 : PosLess(hits[j], hits[j + 1])
-HitsAllowed(gs, d, hits) == \A j \in 1 .. Len(hits) : hits[j] \in MustPos(gs, d) \cup MayPos(gs, d)
+HitsAllowed(gs, d, hits) ==
+    LET allowed == MustPos(gs, d) \cup MayPos(gs, d)
+    IN  \A j \in 1 .. Len(hits) : hits[j] \in allowed
 WithinLimit(mh, hits) == mh = 0 \/ Len(hits) <= mh
 Exempt(mh, hits, p) == mh > 0 /\ Len(hits) = mh /\ PosLess(SeqLast(hits), p)
 Missing(gs, d, mh, hits) ==
-    {p \in MustPos(gs, d) : (\A j \in 1 .. Len(hits) : hits[j] # p) /\ ~Exempt(mh, hits, p)}
+    LET reported == {hits[j] : j \in 1 .. Len(hits)}
+    IN  {p \in MustPos(gs, d) : p \notin reported /\ ~Exempt(mh, hits, p)}
 
 \* "exactly one hit for each compatible sign change (plus samples on the surface), in time
 \*  order; each hit inside its bracketing interval, at the chord crossing"
@@ -186,14 +190,16 @@ CrossMask(g0, g1, d) ==
     CASE d = 0  -> g0 * g1 <= 0 /\ g0 # g1
       [] d = 1  -> g0 < 0 /\ g1 >= 0
       [] d = -1 -> g0 > 0 /\ g1 <= 0
-CrIdx(gs, d) == {k \in 1 .. Len(gs) - 1 : CrossMask(gs[k], gs[k + 1], d) /\ k \notin OnIdx(gs, d)}
+CrIdx(gs, d) ==
+    LET onIdx == OnIdx(gs, d)      \* cross_mask &= ~on_mask
+    IN  {k \in 1 .. Len(gs) - 1 : CrossMask(gs[k], gs[k + 1], d) /\ k \notin onIdx}
 Alpha(g0, g1) == Clamp01(Frac(g0, g0 - g1))      \* alpha = g0/(g0-g1) clipped to [0,1]
 
 \* candidates of segment k on the vectorised path (segment_refine = 0); np.concatenate((on_idx,
 \* cr_idx)) + stable argsort by segment puts the on-surface hit of a segment before its crossing
-SegCands0(gs, k, d) ==
-    (IF k \in OnIdx(gs, d) THEN << <<k, FZero>> >> ELSE <<>>)
-    \o (IF k \in CrIdx(gs, d) THEN << Pos(k, Alpha(gs[k], gs[k + 1])) >> ELSE <<>>)
+SegCands0(gs, k, d, onIdx, crIdx) ==
+    (IF k \in onIdx THEN << <<k, FZero>> >> ELSE <<>>)
+    \o (IF k \in crIdx THEN << Pos(k, Alpha(gs[k], gs[k + 1])) >> ELSE <<>>)
 
 \* _detect_with_segment_refine: sub-interval m of segment k, r = segment_refine;
 \* g_lo, g_hi are the chord values at s = m/(r+1), (m+1)/(r+1), scaled by (r+1)
@@ -218,9 +224,11 @@ TailCand(gs, d) ==
         THEN << <<n, FZero>> >> ELSE <<>>
 
 Candidates(gs, d, r) ==
-    LET RECURSIVE Segs(_)
+    LET onIdx == OnIdx(gs, d)
+        crIdx == CrIdx(gs, d)
+        RECURSIVE Segs(_)
         Segs(k) == IF k > Len(gs) - 1 THEN <<>>
-                   ELSE (IF r = 0 THEN SegCands0(gs, k, d) ELSE SegCandsR(gs, k, d, r)) \o Segs(k + 1)
+                   ELSE (IF r = 0 THEN SegCands0(gs, k, d, onIdx, crIdx) ELSE SegCandsR(gs, k, d, r)) \o Segs(k + 1)
     IN  Segs(1) \o TailCand(gs, d)
 
 \* _order_and_dedup_hits: drop a candidate whose time equals the time of the last KEPT hit
@@ -243,7 +251,7 @@ Init == g = <<>>
 Extend(v) == Len(g) < MaxN /\ g' = Append(g, v)
 Next == \E v \in Vals : Extend(v)
 Spec == Init /\ [][Next]_g
-Ready == Len(g) >= 2
+Ready == Len(g) >= 2 /\ Len(g) % CheckEvery = 0
 
 (***************************************************************************)
 (* algorithm => requirement, one invariant per clause                      *)
